@@ -1,1 +1,64 @@
-(* placeholder, replaced below *)
+(* C05 -- indexed payload equals what the endpoints exchanged on the wire.
+   Level: proof of pkappa2's own logic (packet ordering across captures, UDP assembler, attribution);
+   gopacket / libpcap are modelled by the ideal reassembler Tcp.v, whose round-trip theorem is the
+   specification the correspondence check holds the library to. *)
+From Pk Require Import BuilderOrder BuilderOrderProofs Attrib AttribProofs Udp UdpProofs Tcp TcpProofs.
+From Coq Require Import Sorting.Sorted Sorting.Permutation.
+
+(* (1) The lazy multi-capture loop feeds the reassemblers the sorted list of all needed packets, each once. *)
+Theorem C05_feed_sorted_each_packet_once : forall pcaps newPackets,
+  Forall pcap_ok pcaps -> mins_sorted pcaps ->
+  StronglySorted kle (feed pcaps newPackets) /\
+  Permutation (feed pcaps newPackets) (newPackets ++ flat_map snd pcaps).
+Proof. exact feed_sorted_permutation. Qed.
+
+Theorem C05_feed_is_the_global_sort : forall pcaps newPackets,
+  Forall pcap_ok pcaps -> mins_sorted pcaps ->
+  keys_identify (newPackets ++ flat_map snd pcaps) ->
+  feed pcaps newPackets = sort_packets (newPackets ++ flat_map snd pcaps).
+Proof. exact feed_is_global_sort. Qed.
+
+(* hypotheses are satisfiable: two replayed captures and one new one, interleaved timestamps *)
+Example C05_feed_example :
+  let mk ts f i := mkPacket ts f i (1, 1) (2, 2) false false false false false 0 [] in
+  let pcaps := [(10, [mk 10 0 0; mk 30 0 1]); (20, [mk 20 1 0; mk 20 1 1])] in
+  Forall pcap_ok pcaps /\ mins_sorted pcaps /\
+  map (fun p => (p_ts p, p_file p, p_idx p)) (feed pcaps [mk 25 2 0; mk 5 2 1]) =
+  [(5, 2, 1); (10, 0, 0); (20, 1, 0); (20, 1, 1); (25, 2, 0); (30, 0, 1)].
+Proof.
+  split; [repeat constructor; vm_compute; discriminate|].
+  split; [repeat constructor; vm_compute; discriminate|].
+  vm_compute. reflexivity.
+Qed.
+
+(* (2) UDP assembler.  Proved for the packets of one flow alone (every hash function, every timing); the
+   non-interference of other flows interleaved in the feed is NOT proved (correspondence + examples). *)
+Theorem C05_udp_one_flow_alone_partial : forall (hashf : N -> N) (a b : endpoint) (l : list packet),
+  a <> b ->
+  Forall (fun p => (p_src p = a /\ p_dst p = b) \/ (p_src p = b /\ p_dst p = a)) l ->
+  fst (udp_run hashf l) = flow_runs None l.
+Proof. intros hashf a b l Hab Hl. exact (one_flow_streams hashf a b Hab l Hl). Qed.
+
+Theorem C05_udp_client_is_first_sender : forall p l s rest,
+  flow_runs None (p :: l) = s :: rest -> s_client s = p_src p /\ s_server s = p_dst p.
+Proof. exact flow_runs_first_client. Qed.
+
+(* (3) Every UDP datagram's bytes are attributed to the packet that carried them (hence its direction). *)
+Theorem C05_udp_payload_attributed_to_its_packet : forall s r dir b,
+  b <> [] ->
+  s_data (add_udp_packet s r dir b) = (s_npk s, b) :: s_data s /\
+  dir_of_index (add_udp_packet s r dir b) (s_npk s) = dir.
+Proof. exact udp_payload_attributed_to_its_packet. Qed.
+
+(* (4) Ideal TCP reassembly: every segmentation, duplication (exact, coalesced, partial) and reordering
+   of a direction's byte stream is inverted -- the specification of the gopacket Section. *)
+Theorem C05_tcp_ideal_reassembly_inverts_every_perturbation : forall (data : list N) (l : list seg),
+  Forall (slice data) l -> covers data l -> reasm l = data.
+Proof. exact reasm_perturbed_segments. Qed.
+
+(* hypotheses are satisfiable: "abcdefgh" as b|cdefgh first, then a, then a coalesced retransmission *)
+Example C05_reasm_example :
+  let data := [97; 98; 99; 100; 101; 102; 103; 104] in
+  let l := [(2, [99; 100; 101; 102; 103; 104]); (1, [98]); (0, [97]); (0, [97; 98; 99]); (5, [102; 103; 104])] in
+  Forall (slice data) l /\ reasm l = data.
+Proof. split; [repeat constructor; vm_compute; discriminate|vm_compute; reflexivity]. Qed.
